@@ -36,7 +36,9 @@ LabelFieldSeq == << "lname", "lresn", "lchain", "lseq" >>
 LabelDiff(r, s) ==
   LET bad == { k \in 1..Len(LabelFieldSeq) : r[LabelFieldSeq[k]] # s[LabelFieldSeq[k]] } IN
   IF bad = {} THEN "ok" ELSE LabelFieldSeq[Min(bad)]
-LabelsOf(q) == [lname |-> q.name, lresn |-> q.resn, lchain |-> q.chain, lseq |-> q.resseq]
+\* (the written label_seq_id is the author's number unless the table gives the residue a label number of its own)
+LabelsOf(q) == [lname |-> q.name, lresn |-> q.resn, lchain |-> q.chain,
+                lseq |-> IF "lseq" \in DOMAIN q THEN q.lseq ELSE q.resseq]
 
 First(c)   == c.frames[1]
 Final(c)   == c.frames[Len(c.frames)]
@@ -62,7 +64,9 @@ FieldIdentity(c) ==
       d      == TableDiff(want, E.rows)
       nocharge(R) == [k \in 1..n |-> [R[k] EXCEPT !.charge = <<>>]] IN
   IF d[2] = "ok" THEN
-       IF S.fmt = "cif" /\ E.fmt = "cif" /\ \E k \in 1..n : LabelDiff(S.rows[k], E.rows[k]) # "ok"
+       \* (the label_* items survive only where no PDB text lies on the way: PDB has no columns for them)
+       IF S.fmt = "cif" /\ E.fmt = "cif" /\ (\A f \in 1..Len(c.frames) : c.frames[f].fmt = "cif")
+          /\ \E k \in 1..n : LabelDiff(S.rows[k], E.rows[k]) # "ok"
        THEN <<"fail", "FieldIdentity", "label">>
        ELSE <<"ok">>
   \* P8b exactly: a path through write_cif(PDB frame) loses every formal charge and nothing else
